@@ -134,6 +134,7 @@ func (s *channelState) receiveClose(msg pmpx.ChannelClose) status.Status {
 func (s *channelState) receiveData(msg pmpx.ChannelData) status.Status {
 	data := msg.Data()
 	_, _ = s.recvQueue.Write(data) // ignore end and false, receive queues are unbounded
+	vtr("rq.put", s.id, int64(len(data)), 0)
 	return status.OK
 }
 
